@@ -116,6 +116,55 @@ def u_gzip(c):
         c.oblige("post/content-length-left-alone-when-not-compressing", h2.get("Content-Length") == (str(total) if has_cl else None))
 
 
+@unit("C29", "GZipContentEncoding.status-and-entropy", [(M, "GZipContentEncoding.transform_first_chunk"), (M, "GZipContentEncoding.transform_chunk")],
+      bounded="finite case analysis: 5 statuses x 5 bodies (empty, text, and incompressible bytes of 1024 / 5000 / 70000) x one or two chunks, gzip accepted, compressible type")
+def u_status_entropy(c):
+    """what the headers announce is what the body is, whatever the status and however badly the body compresses: a response that says Content-Encoding: gzip gunzips to exactly
+    the bytes written (a body that does not shrink is still gzip once announced), one that does not say so carries them as they are; Vary names Accept-Encoding on every response"""
+    import random
+    import tornado.web as W
+    from tornado import httputil
+    status = c.choose("status", [200, 204, 304, 404, 206])
+    body_kind = c.choose("body", ["empty", "text-5000", "random-1024", "random-5000", "random-70000"])
+    split = c.choose("chunks", ["one-finishing-chunk", "two-chunks"])
+    rnd = random.Random(29)
+    body = {"empty": b"", "text-5000": (b"compressible text " * 300)[:5000]}.get(body_kind)
+    if body is None:
+        body = bytes(rnd.getrandbits(8) for _ in range(int(body_kind.split("-")[1])))
+    if status in (204, 304):
+        body = b""
+    req = types.SimpleNamespace(headers=httputil.HTTPHeaders({"Accept-Encoding": "gzip"}))
+    t = W.GZipContentEncoding.__new__(W.GZipContentEncoding)
+    c.call(c.fn(M, "GZipContentEncoding.__init__"), t, req)
+    h = httputil.HTTPHeaders({"Content-Type": "text/plain", "Vary": "Cookie"})
+    parts = [body] if split.startswith("one") else [body[:len(body) // 2], body[len(body) // 2:]]
+    out = c.call(c.fn(M, "GZipContentEncoding.transform_first_chunk"), t, status, h, parts[0], len(parts) == 1)
+    c.only_raises(out, ())
+    if out.raised:
+        return
+    st2, h2, piece = out.value
+    pieces = [piece]
+    for i, p_ in enumerate(parts[1:]):
+        o2 = c.call(c.fn(M, "GZipContentEncoding.transform_chunk"), t, p_, i == len(parts) - 2)
+        c.only_raises(o2, ())
+        if o2.raised:
+            return
+        pieces.append(o2.value)
+    wire = b"".join(pieces)
+    c.cover("status-entropy/%d" % status)
+    c.values = {"announced": h2.get("Content-Encoding"), "bytes_written": len(body), "bytes_on_the_wire": len(wire), "vary": h2.get("Vary")}
+    if h2.get("Content-Encoding") == "gzip":
+        try:
+            ok = gzip.decompress(wire) == body
+        except Exception:      # noqa: B902
+            ok = False
+        c.oblige("post/a-body-announced-as-gzip-gunzips-to-exactly-the-written-bytes", ok)
+    else:
+        c.oblige("post/a-body-not-announced-as-gzip-is-the-written-bytes", wire == body and "Content-Encoding" not in h2)
+    c.oblige("post/vary-names-accept-encoding-and-keeps-what-was-there", [x.strip().lower() for x in h2.get("Vary", "").split(",")] == ["cookie", "accept-encoding"])
+    c.oblige("post/status-untouched", st2 == status)
+
+
 # ---------------------------------------------------------------------------------- bounded stand-in
 def standin(tier, seed):
     import itertools
